@@ -34,7 +34,7 @@ PlainSyntax == {[ok |-> FALSE, cs |-> {"syntax"}]}
 Check ==
   LET text == TextOf(s, 1)
       l    == Lex(text)
-      sadm == IF ~l.ok THEN PlainSyntax ELSE StaticAdmissible(l.ts)
+      sadm == StaticAdmissibleText(text)
       case == [p |-> Prop, kind |-> "static", alpha |-> AlphaName, expr |-> text, sadm |-> sadm]
       okAll == \A o \in sadm : o.ok
       \* blanks between tokens never matter for an accepted text
